@@ -137,13 +137,68 @@ theorem wrong_question_is_error (udp : Bool) (qid : Nat) (qq : Question) (c : Ca
     exchange udp qid (some qq) (c :: t) = (XRes.errQuestion, 1) := by
   cases udp <;> simp [exchange, pick, udpLoop, hb, hid, hq]
 
+/-- **Header bits buy a reply nothing.** `Exchange` decides on readability, ID
+and question section alone: rewriting the header word of every candidate (TC,
+AA, QR, rcode, …) in any way changes neither which candidate is returned nor
+the error. In particular a truncated (TC=1) reply is held to the ID and
+question guards like any other, on a stream as on a datagram socket. -/
+theorem exchange_ignores_header (udp : Bool) (qid : Nat) (q : Option Question) (cands : List Cand)
+    (f : Cand → Nat) :
+    exchange udp qid q (cands.map fun c => { c with hdr := f c }) = exchange udp qid q cands := by
+  have loop : ∀ (cs : List Cand) (i : Nat),
+      udpLoop qid (cs.map fun c => { c with hdr := f c }) i =
+        ((udpLoop qid cs i).1.map fun p => (p.1, { p.2 with hdr := f p.2 }), (udpLoop qid cs i).2) := by
+    intro cs
+    induction cs with
+    | nil => intro i; simp [udpLoop]
+    | cons c t ih =>
+      intro i
+      simp only [List.map_cons, udpLoop]
+      by_cases hb : c.bad = true
+      · simp [hb]
+      · by_cases hid : c.id = qid
+        · simp [hb, hid]
+        · simp only [hb, hid, if_false, Bool.false_eq_true]
+          exact ih (i + 1)
+  unfold exchange pick
+  cases udp with
+  | true =>
+    simp only [if_true]
+    rw [loop cands 0]
+    cases h : udpLoop qid cands 0 with
+    | mk r u =>
+      cases r with
+      | none => simp
+      | some p => cases q <;> simp
+  | false =>
+    simp only [Bool.false_eq_true, if_false]
+    cases cands with
+    | nil => simp
+    | cons c t =>
+      simp only [List.map_cons]
+      by_cases hb : c.bad = true
+      · simp [hb]
+      · by_cases hid : c.id = qid
+        · cases q <;> simp [hb, hid]
+        · simp [hb, hid]
+
+/-- A reply over a stream with the right ID, any header bits (TC=1 included)
+and another question is refused with `ErrQuestion` — nobody retries a stream. -/
+theorem stream_truncated_wrong_question_is_error (qid hdr : Nat) (qq : Question) (qs : List Question)
+    (t : List Cand) (hq : questionMatches qq qs = false) :
+    exchange false qid (some qq) (⟨false, qid, qs, hdr⟩ :: t) = (XRes.errQuestion, 1) :=
+  wrong_question_is_error false qid qq ⟨false, qid, qs, hdr⟩ t rfl rfl hq
+
 -- non-vacuity: two stray datagrams (wrong id; right id comes third, case differs) — the third is returned
 example : exchange true 7 (some ⟨"www.victim.test.".toList, 1, 1⟩)
-    [⟨false, 8, [⟨"www.victim.test.".toList, 1, 1⟩]⟩, ⟨false, 6, []⟩,
-     ⟨false, 7, [⟨"WWW.Victim.test.".toList, 1, 1⟩]⟩] = (XRes.ok 2, 3) := by decide
+    [⟨false, 8, [⟨"www.victim.test.".toList, 1, 1⟩], 0⟩, ⟨false, 6, [], 0⟩,
+     ⟨false, 7, [⟨"WWW.Victim.test.".toList, 1, 1⟩], 0⟩] = (XRes.ok 2, 3) := by decide
 example : exchange true 7 (some ⟨"mail.victim.test.".toList, 1, 1⟩)
-    [⟨false, 7, [⟨"www.victim.test.".toList, 1, 1⟩]⟩, ⟨false, 7, [⟨"mail.victim.test.".toList, 1, 1⟩]⟩]
+    [⟨false, 7, [⟨"www.victim.test.".toList, 1, 1⟩], 0⟩, ⟨false, 7, [⟨"mail.victim.test.".toList, 1, 1⟩], 0⟩]
       = (XRes.errQuestion, 1) := by decide
+-- a TC=1 reply (header word 116 = 't') over a stream with the right id and a victim-zone question is refused
+example : exchange false 7 (some ⟨"x.sub.evil.test.".toList, 1, 1⟩)
+    [⟨false, 7, [⟨"x.sub.victim.test.".toList, 1, 1⟩], 116⟩] = (XRes.errQuestion, 1) := by decide
 
 /-! ## glue -/
 
